@@ -405,6 +405,31 @@ PROPS["C19"] = {
     "assumptions": ["gridn line width is not asserted (documentation gives 0.1/0.2 units, SVG default applies)"],
 }
 
+PROPS["C20"] = {
+    "pkg": "p20",
+    "level": "exploration",
+    "level_text": "Sealing: for each generated answer (short letter lists, arbitrary Unicode, arbitrary bytes, up to 8 KB) and each of three "
+                  "fresh key pairs (2x1024, 1x2048 bit) Decrypt(Encrypt(a)) == a, and the sealed value is attacked exhaustively: every "
+                  "single byte of the decoded envelope xor three masks, every truncation length, appended bytes, edits and deletions of "
+                  "base64 characters, and a foreign private key; each must be rejected or still yield exactly a (never another string, "
+                  "never a Go panic). Verification: generated single/multiple-choice questions with 2-6 evy-program choices whose outputs "
+                  "are drawn from a small pool so that any subset can match; the marked set is exact, has one extra, one missing, a letter "
+                  "beyond the choices, or is arbitrary; Verify() == nil iff the marked positions are exactly the matching choices, computed "
+                  "by the harness by running the programs itself; half of the questions go through Seal + private key.",
+    "level_note": "RSA key generation and OAEP are not functions of VERIF_SEED: a failing case stores keys, ciphertext and the tampered "
+                  "value in its replay file. Per answer the tampering sweep is exhaustive over byte positions and truncation lengths.",
+    "technique": "property-based round-trip and exhaustive single-fault tampering of sealed values + model-based check of answer verification (rapid)",
+    "tests": [
+        {"name": "TestCrypto", "quick": {"shards": 8, "checks": 12}, "thorough": {"shards": 16, "checks": 150}},
+        {"name": "TestQuestions", "quick": {"shards": 8, "checks": 1500}, "thorough": {"shards": 16, "checks": 15000}},
+    ],
+    "rule": "cases: (answer, key) pairs with their complete tampering sweep (counted in extra.tampered_values_tried), and generated "
+            "questions. Non-trivial = every crypto case; a question where some but not all choices match; distinct by answer/key "
+            "resp. question text.",
+    "exhaustive_part": "per sealed value: every byte position x 3 masks and every truncation length",
+    "assumptions": ["choices are fenced evy blocks, the question is a plain fenced output block (one of the documented question forms)"],
+}
+
 NOT_APPLICABLE = {}
 
 ENGINES = [
